@@ -30,6 +30,21 @@ claim("C19", "CFG pairing/must-pass + atomic-only + hand-over shape over go/ssa"
       "Not covered: exactly-once/FIFO under all interleavings, submissions racing Stop, the barrier-of-waiting-tasks behaviour itself.",
       "DESIGN.md §4 C19")
 
+claim("C14", "guarded-by lockset + hand-over shape + dominance + frozen dispatch sets over go/ssa",
+      "Decides the code shape behind 'callbacks ordered, writes whole': sendQueue only under the connection mutex, writeFrame always entered with it, WriteMessage/WriteFrame release it only by their deferred unlock (all fragments in one critical section); the send-queue drainer is spawned only on len==1 after the append, its exhaustion test and reset are atomic, its closed edge exits, the head slot is cleared on capture; CloseAndClean test-and-sets closed first and is the only, unlocked caller of the close callback; the open handler precedes the read goroutine, the success return and the dialer's result notification; message/data-frame/control handlers run only in closures handed to Execute or SyncCall; a frame rejected by a full queue is released and reported.",
+      "Not covered: interleavings as such, the four upgrade paths as executions.",
+      "DESIGN.md §4 C14")
+
+claim("C16", "CFG dominance on timer cells + guarded-by lockset + frozen call-site pairs over go/ssa",
+      "Decides the bookkeeping around the deadline timers (timing itself is wall-clock): create only on the cell-is-nil edge and store there, Reset on the non-nil edge, Stop always paired with clearing the cell, all under Conn.mux with the cell addresses flowing only into setDeadline; durations are time.Until(t) of the caller's t on the non-zero edge; each timer closes with its own timeout error; close cancels both timers in the critical section that sets closed; Write/Writev clear the write timer exactly on the queue-empty edge; the seven keep-alive renewal sites exist and pass time.Now().Add(KeepaliveTime).",
+      "Not covered: timing, the race between a firing timer and Reset, the HTTP client's per-request deadlines.",
+      "DESIGN.md §4 C16")
+
+claim("C18", "CFG ordering/must-pass + resource pairing + frozen sets over go/ssa",
+      "Decides the ordering and pairing that Stop's termination depends on: Engine.Stop's eight steps in order with both waits on every path to the return and the snapshot under the engine mutex; poller.stop sets the flag before the wake-up and both loops re-read it; each poller goroutine is started after Add(1), defers Done first and the close of its descriptors; newPoller closes opened descriptors on error exits; nbhttp.listen pairs Add/deferred Done; nbhttp Stop/Shutdown/stop-hook order; lmux.Stop closes listeners and channel and Accept selects on it; the connection WaitGroup Add/Done sets.",
+      "Not covered: that Stop returns, goroutine/descriptor counts, races of Stop with accepts and callbacks.",
+      "DESIGN.md §4 C18")
+
 PENDING = "check not built yet in this round (static rule tables are being added property by property; see DESIGN.md §4 for the planned obligations)"
 for pid in ["C%02d" % i for i in range(1, 21)]:
     if pid not in PROPS:
